@@ -1613,7 +1613,7 @@ bool SignatureHashSchnorr(uint256& hash_out, ScriptExecutionData& execdata, cons
     // Hash type
     const uint8_t output_type = (hash_type == SIGHASH_DEFAULT) ? SIGHASH_ALL : (hash_type & SIGHASH_OUTPUT_MASK); // Default (no sighash byte) is equivalent to SIGHASH_ALL
     const uint8_t input_type = hash_type & SIGHASH_INPUT_MASK;
-    if (!(hash_type <= 0x03 || (hash_type >= 0x81 && hash_type <= 0x83))) return false;
+    if (!(hash_type <= 0x03 || (hash_type >= 0x81 && hash_type <= 0x83))) { HashWriter::debug = false; return false; }
     btc_sighash_logf(" << hash type\n");
     ss << hash_type;
     // Transaction level data
@@ -1666,6 +1666,7 @@ bool SignatureHashSchnorr(uint256& hash_out, ScriptExecutionData& execdata, cons
         btc_sighash_logf("sighash single\n");
         if (in_pos >= tx_to.vout.size()) {
             btc_sighash_logf(" << in_pos >= tx_to.vout.size()\n");
+            HashWriter::debug = false;
             return false;
         }
         if (!execdata.m_output_hash) {
@@ -1692,6 +1693,7 @@ bool SignatureHashSchnorr(uint256& hash_out, ScriptExecutionData& execdata, cons
     }
 
     hash_out = ss.GetSHA256();
+    HashWriter::debug = false;
     return true;
 }
 
